@@ -234,10 +234,11 @@ class Builder(object):
             abbr = self.pick_name(ABBR_POOL, sc, allow_dup=0.05)
         k = r.random()
         tname = "UInt"
-        if k < 0.35:
+        if k < 0.5:
             cands = [t for t in self.all_types if t is not sdef]
+            structs = [t for t in cands if t.kind == "struct" and any(m.kind == "field" for m in t.own.defs)]
             if cands:
-                t = r.choice(cands)
+                t = r.choice(structs) if structs and r.random() < 0.6 else r.choice(cands)
                 ref = Ref("type", self.spell_type(t, sc), sc, None, name)
                 tname = ".".join(ref.path)
                 f.ftype = "pending"
@@ -303,7 +304,16 @@ class Builder(object):
         if k < 0.3 and fields:
             # local field / abbreviation / parameter / earlier alias, maybe with a member path
             aliases = [d for d in fields if getattr(d, "alias_ref", None) is not None]
-            d = r.choice(aliases) if aliases and r.random() < 0.4 else r.choice(fields)
+            deep = [d for d in aliases if len(d.alias_ref.path) >= 2]
+            composite = [d for d in fields if d.kind == "field" and d.ftype is not None and d.ftype != "pending" and d.ftype.kind == "struct"]
+            if deep and r.random() < 0.35:
+                d = r.choice(deep)
+            elif aliases and r.random() < 0.3:
+                d = r.choice(aliases)
+            elif composite and r.random() < 0.5:
+                d = r.choice(composite)
+            else:
+                d = r.choice(fields)
             path = [d.name]
             f = d.field if d.kind == "abbr" else d
             if getattr(f, "alias_ref", None) is not None:
@@ -311,7 +321,7 @@ class Builder(object):
                 if o[0] == "ok" and o[1].kind in ("field", "abbr"):
                     f = o[1].field if o[1].kind == "abbr" else o[1]
             for _ in range(2):
-                if f.kind == "field" and f.ftype is not None and f.ftype.kind == "struct" and r.random() < 0.7:
+                if f.kind == "field" and f.ftype is not None and f.ftype != "pending" and f.ftype.kind == "struct" and r.random() < 0.85:
                     mem = [m for m in f.ftype.own.defs if m.kind in ("field", "abbr")]
                     if not mem:
                         break
